@@ -23,6 +23,7 @@ asserted here.
 import hashlib
 
 from dsim.kernel import Violations
+from models.usb2_wire import gen_idle_data
 from models.usb2 import UTMIHost, parse_data
 from models import streams_usb2 as su
 from engines.usb2_device import device_bench, IDLE_INIT
@@ -176,6 +177,7 @@ def gen(rng, tier, index):
     cfg = {"variant": variant, "mps": mps, "byte_period": rng.choice([1, 1, 2]), "pre": rng.choice([1, 1, 2]),
            "post": rng.choice([0, 0, 1]), "turn": bit * rng.choice([2, 2, 3, 6]), "tok_gap": bit * rng.choice([2, 3]),
            "txready": rng.choice(["always", "always", ["every", 2]]), "streams": streams, "queues": queues}
+    cfg["idle_data"] = gen_idle_data(rng)
     return {"engine": ENGINE, "config": cfg, "ops": ops}
 
 
@@ -281,7 +283,7 @@ def run(scn):
         yield from h.idle(mps + 20)
 
     txr = cfg["txready"] if cfg["txready"] == "always" else tuple(cfg["txready"])
-    host = UTMIHost(script, byte_period=cfg["byte_period"], pre=cfg["pre"], post=cfg["post"], txready=txr)
+    host = UTMIHost(script, idle_data=cfg.get("idle_data"), byte_period=cfg["byte_period"], pre=cfg["pre"], post=cfg["post"], txready=txr)
 
     class HaltSpy:
         """ probe only (spy endpoint outputs): when did the clear-halt strobe fire """
